@@ -5,7 +5,9 @@
 // key-share fetcher (EVM, Substrate) and the IPFS uploader (BTC: first step of rawTx) refuse.
 // Histories interleave deliveries with the end of signing sessions (BTC: the real
 // storeProposalsStatus through the add-only hook; EVM/Substrate: the destination reports executed)
-// and restarts (a new Executor over the same store / destination).
+// and restarts (a new Executor over the same store / destination), and - Bitcoin - retry requests that
+// release pending proposals (the real relayer/retry.FilterDeposits over the same store), after which a
+// second, overlapping session over some of the same transfers runs next to the first one.
 package main
 
 import (
@@ -19,11 +21,13 @@ import (
 	btcexec "github.com/ChainSafe/sygma-relayer/chains/btc/executor"
 	evmexec "github.com/ChainSafe/sygma-relayer/chains/evm/executor"
 	subexec "github.com/ChainSafe/sygma-relayer/chains/substrate/executor"
+	"github.com/ChainSafe/sygma-relayer/relayer/retry"
 	"github.com/ChainSafe/sygma-relayer/relayer/transfer"
 	"github.com/ChainSafe/sygma-relayer/store"
 	"github.com/btcsuite/btcd/btcutil"
 	"github.com/btcsuite/btcd/chaincfg"
 	"github.com/rs/zerolog"
+	"github.com/sygmaprotocol/sygma-core/relayer/message"
 	"github.com/sygmaprotocol/sygma-core/relayer/proposal"
 
 	fk "verifharness/execfakes"
@@ -41,7 +45,7 @@ type Ent struct {
 }
 
 type Op struct {
-	Op string `json:"op"` // deliver | ok | fail | restart
+	Op string `json:"op"` // deliver | ok | fail | restart | release
 	D  []Ent  `json:"d,omitempty"`
 	B  []K    `json:"b,omitempty"`
 }
@@ -52,9 +56,10 @@ type InitEnt struct {
 }
 
 type Case struct {
-	Dest string    `json:"dest"` // evm | sub | btc
-	Mode string    `json:"mode"` // single | hist (same machinery; names the generator stream)
+	Dest string    `json:"dest"`          // evm | sub | btc
+	Mode string    `json:"mode"`          // single | hist (same machinery; names the generator stream)
 	Cap  uint64    `json:"cap,omitempty"` // evm: transactionMaxGas (transfer gas is 100)
+	Res  uint64    `json:"res,omitempty"` // btc: number of resources (resource of a transfer = nonce mod Res; 0 means 2)
 	Init []InitEnt `json:"init,omitempty"`
 	Ops  []Op      `json:"ops"`
 }
@@ -114,7 +119,13 @@ var btcRecipient = func() string {
 	return a.EncodeAddress()
 }()
 
-func rid(k K) [32]byte { return [32]byte{byte(k.N % 2)} }
+func (c Case) rid(k K) [32]byte {
+	m := c.Res
+	if m == 0 {
+		m = 2
+	}
+	return [32]byte{byte(k.N % m)}
+}
 
 type world struct {
 	c     Case
@@ -149,7 +160,7 @@ func (w *world) proposals(d []Ent) []*proposal.Proposal {
 	for i, e := range d {
 		if w.c.Dest == "btc" {
 			ps[i] = proposal.NewProposal(e.S, destDomain, btcexec.BtcTransferProposalData{
-				Amount: 1000, Recipient: btcRecipient, DepositNonce: e.N, ResourceId: rid(e.K),
+				Amount: 1000, Recipient: btcRecipient, DepositNonce: e.N, ResourceId: w.c.rid(e.K),
 			}, "mid", transfer.TransferProposalType)
 		} else {
 			ps[i] = proposal.NewProposal(e.S, destDomain, transfer.TransferProposalData{
@@ -300,7 +311,7 @@ func (w *world) finish(b []K, ok bool) {
 		props := make([]*btcexec.BtcTransferProposal, len(b))
 		for i, k := range b {
 			props[i] = &btcexec.BtcTransferProposal{Source: k.S, Destination: destDomain,
-				Data: btcexec.BtcTransferProposalData{Amount: 1000, Recipient: btcRecipient, DepositNonce: k.N, ResourceId: rid(k)}}
+				Data: btcexec.BtcTransferProposalData{Amount: 1000, Recipient: btcRecipient, DepositNonce: k.N, ResourceId: w.c.rid(k)}}
 		}
 		st := store.FailedProp
 		if ok {
@@ -308,13 +319,39 @@ func (w *world) finish(b []K, ok bool) {
 		}
 		w.btc.VerifStoreProposalsStatus(props, st)
 	}
-	var rest []K
-	for _, k := range w.live {
-		if !contains(b, k) {
-			rest = append(rest, k)
+	// the live transfers are a multiset (after a release one transfer can be in two live sessions):
+	// the ending session takes one occurrence of each of its transfers with it
+	for _, k := range b {
+		for i, x := range w.live {
+			if x == k {
+				w.live = append(w.live[:i:i], w.live[i+1:]...)
+				break
+			}
 		}
 	}
-	w.live = rest
+}
+
+// release: a retry request for a block that holds the deposits b reaches relayer/retry.FilterDeposits
+// (one call per resource, as the retry message names one resource).
+func (w *world) release(b []K) {
+	if w.c.Dest != "btc" {
+		return // the EVM / Substrate executors consult the destination, not the status store
+	}
+	byRes := map[[32]byte][]*message.Message{}
+	var order [][32]byte
+	for _, k := range b {
+		r := w.c.rid(k)
+		if _, ok := byRes[r]; !ok {
+			order = append(order, r)
+		}
+		byRes[r] = append(byRes[r], &message.Message{Source: k.S, Destination: destDomain, ID: "retry",
+			Data: transfer.TransferMessageData{DepositNonce: k.N, ResourceId: r}})
+	}
+	for _, r := range order {
+		if _, err := retry.FilterDeposits(w.fs, map[uint8][]*message.Message{destDomain: byRes[r]}, r, destDomain); err != nil {
+			panic(err)
+		}
+	}
 }
 
 func (w *world) snapshot(uni []K) []string {
@@ -390,6 +427,8 @@ func run(c Case) Obs {
 		case "restart":
 			w.live = nil
 			w.newExecutor()
+		case "release":
+			w.release(op.B)
 		default:
 			panic("unknown op " + op.Op)
 		}
@@ -415,9 +454,10 @@ func pow(b, e int) int {
 // sim mirrors the intended rules only to steer the generator towards meaningful ops (sessions that
 // can really end); it has no influence on any verdict.
 type sim struct {
+	c    *Case
 	btc  bool
 	st   map[K]string
-	live [][]K
+	live [][]K // one entry per watchExecution: a delivery's selection (BTC: its share of one resource)
 }
 
 func (s *sim) eligible(k K) bool {
@@ -444,19 +484,79 @@ func (s *sim) deliver(d []Ent) {
 		}
 		sel = append(sel, e.K)
 	}
-	if len(sel) > 0 {
-		s.live = append(s.live, sel)
+	if !s.btc {
+		if len(sel) > 0 {
+			s.live = append(s.live, sel)
+		}
+		return
 	}
+	// one transaction (and one watchExecution) per resource
+	parts := map[[32]byte][]K{}
+	var order [][32]byte
+	for _, k := range sel {
+		r := s.c.rid(k)
+		if _, ok := parts[r]; !ok {
+			order = append(order, r)
+		}
+		parts[r] = append(parts[r], k)
+	}
+	for _, r := range order {
+		s.live = append(s.live, parts[r])
+	}
+}
+func (s *sim) end(b []K, ok bool) {
+	for _, k := range b {
+		switch {
+		case !s.btc:
+			if ok {
+				s.st[k] = "executed"
+			}
+		case ok:
+			s.st[k] = "executed"
+		case s.st[k] != "executed":
+			s.st[k] = "failed"
+		}
+	}
+}
+func (s *sim) release(b []K) {
+	for _, k := range b {
+		if s.btc && s.st[k] == "pending" {
+			s.st[k] = "failed"
+		}
+	}
+}
+
+// popLive takes one live session out of the steering state.
+func (s *sim) popLive(j int) []K {
+	b := s.live[j]
+	s.live = append(s.live[:j:j], s.live[j+1:]...)
+	return b
+}
+
+func subsetOf(r *vgen.Rng, ks []K) []K {
+	var b []K
+	for _, k := range ks {
+		if r.Chance(1, 2) {
+			b = append(b, k)
+		}
+	}
+	if len(b) == 0 && len(ks) > 0 {
+		b = []K{vgen.Pick(r, ks)}
+	}
+	return b
 }
 
 func genHist(r *vgen.Rng, dest string, nops int) Case {
 	c := Case{Dest: dest, Mode: "hist", Cap: vgen.Pick(r, []uint64{150, 250, 1000000})}
+	if dest == "btc" && r.Chance(1, 3) {
+		c.Res = 1 // everything in one transaction
+	}
 	nk := r.Range(2, 6)
 	keys := make([]K, nk)
 	for i := range keys {
 		keys[i] = K{S: uint8(1 + i%2), N: uint64(i / 2)}
 	}
-	s := &sim{btc: dest == "btc", st: map[K]string{}}
+	s := &sim{c: &c, btc: dest == "btc", st: map[K]string{}}
 	for _, k := range keys {
 		if r.Chance(1, 5) {
 			st := "executed"
@@ -469,7 +569,7 @@ func genHist(r *vgen.Rng, dest string, nops int) Case {
 	}
 	for i := 0; i < nops; i++ {
 		switch x := r.Intn(100); {
-		case x < 50 || len(s.live) == 0 && x < 80:
+		case x < 45 || len(s.live) == 0 && x < 75:
 			n := r.Range(1, 5)
 			if r.Chance(1, 25) {
 				n = 0
@@ -486,31 +586,12 @@ func genHist(r *vgen.Rng, dest string, nops int) Case {
 			}
 			c.Ops = append(c.Ops, Op{Op: "deliver", D: d})
 			s.deliver(d)
-		case x < 88:
+		case x < 80:
 			ok := r.Chance(3, 5)
 			var b []K
 			switch y := r.Intn(100); {
-			case y < 70 && len(s.live) > 0:
-				j := r.Intn(len(s.live))
-				b = s.live[j]
-				s.live = append(s.live[:j:j], s.live[j+1:]...)
 			case y < 85 && len(s.live) > 0:
-				// one resource's share of a session (BTC builds one transaction per resource)
-				j := r.Intn(len(s.live))
-				par := uint64(r.Intn(2))
-				var rest []K
-				for _, k := range s.live[j] {
-					if k.N%2 == par {
-						b = append(b, k)
-					} else {
-						rest = append(rest, k)
-					}
-				}
-				if len(rest) == 0 {
-					s.live = append(s.live[:j:j], s.live[j+1:]...)
-				} else {
-					s.live[j] = rest
-				}
+				b = s.popLive(r.Intn(len(s.live)))
 			default:
 				for _, k := range keys {
 					if r.Chance(1, 3) {
@@ -526,25 +607,171 @@ func genHist(r *vgen.Rng, dest string, nops int) Case {
 				name = "ok"
 			}
 			c.Ops = append(c.Ops, Op{Op: name, B: b})
-			// keep the steering state roughly right (exactness is irrelevant)
-			for _, k := range b {
-				if dest != "btc" {
-					if ok {
-						s.st[k] = "executed"
-					}
-				} else if s.st[k] == "pending" {
-					if ok {
-						s.st[k] = "executed"
-					} else {
-						s.st[k] = "failed"
-					}
-				}
+			s.end(b, ok)
+		case x < 92:
+			// a retry request: releases what is pending among the deposits of the retried block
+			var b []K
+			if len(s.live) > 0 && r.Chance(2, 3) {
+				b = subsetOf(r, s.live[r.Intn(len(s.live))])
+			} else {
+				b = subsetOf(r, keys)
 			}
+			c.Ops = append(c.Ops, Op{Op: "release", B: b})
+			s.release(b)
 		default:
 			c.Ops = append(c.Ops, Op{Op: "restart"})
 			s.live = nil
 		}
 	}
+	return c
+}
+
+func ents(ks []K) []Ent {
+	d := make([]Ent, len(ks))
+	for i, k := range ks {
+		d[i].K = k
+	}
+	return d
+}
+
+func endOp(b []K, ok bool) Op {
+	if ok {
+		return Op{Op: "ok", B: b}
+	}
+	return Op{Op: "fail", B: b}
+}
+
+// genOverlapGrid: two overlapping Bitcoin sessions, completely for deliveries of 2..4 transfers in one
+// transaction: A = [k0..kn-1] is in flight, a retry releases the subset R of it (every non-empty R),
+// B = R (same or reversed order) is delivered and signed while A still runs, the two sessions end in
+// either order with every outcome, then everything is delivered again.
+func genOverlapGrid() []Case {
+	var out []Case
+	for n := 2; n <= 4; n++ {
+		a := make([]K, n)
+		for i := range a {
+			a[i] = K{S: 1, N: uint64(i)}
+		}
+		for mask := 1; mask < 1<<n; mask++ {
+			var rel []K
+			for i := range a {
+				if mask>>i&1 == 1 {
+					rel = append(rel, a[i])
+				}
+			}
+			for rev := 0; rev < 2; rev++ {
+				b := append([]K{}, rel...)
+				if rev == 1 {
+					if len(b) < 2 {
+						continue
+					}
+					for i, j := 0, len(b)-1; i < j; i, j = i+1, j-1 {
+						b[i], b[j] = b[j], b[i]
+					}
+				}
+				for end := 0; end < 8; end++ {
+					aOk, bOk, aFirst := end&1 == 1, end&2 == 2, end&4 == 4
+					if aOk && bOk && aFirst {
+						continue // both succeed: the order does not matter
+					}
+					c := Case{Dest: "btc", Mode: "overlap", Res: 1}
+					c.Ops = []Op{{Op: "deliver", D: ents(a)}, {Op: "release", B: rel}, {Op: "deliver", D: ents(b)}}
+					if aFirst {
+						c.Ops = append(c.Ops, endOp(a, aOk), endOp(b, bOk))
+					} else {
+						c.Ops = append(c.Ops, endOp(b, bOk), endOp(a, aOk))
+					}
+					c.Ops = append(c.Ops, Op{Op: "deliver", D: ents(a)})
+					out = append(out, c)
+				}
+			}
+		}
+	}
+	return out
+}
+
+// genOverlap: random overlapping sessions: deliveries of 2..4 transfers over one or two resources,
+// releases of arbitrary subsets, further deliveries that contain a subset of an earlier one at other
+// positions (possibly next to new transfers), the live sessions ending in any order with any outcome,
+// re-deliveries in between and at the end.
+func genOverlap(r *vgen.Rng) Case {
+	c := Case{Dest: "btc", Mode: "overlap", Res: uint64(r.Range(1, 2))}
+	if r.Chance(2, 3) {
+		c.Res = 1
+	}
+	nk := r.Range(3, 6)
+	keys := make([]K, nk)
+	for i := range keys {
+		keys[i] = K{S: uint8(1 + i%2), N: uint64(i / 2)}
+	}
+	s := &sim{c: &c, btc: true, st: map[K]string{}}
+	for _, k := range keys {
+		if r.Chance(1, 8) {
+			st := vgen.Pick(r, statuses)
+			c.Init = append(c.Init, InitEnt{K: k, St: st})
+			s.st[k] = st
+		}
+	}
+	pickSome := func(lo, hi int) []K {
+		n := r.Range(lo, hi)
+		if n > len(keys) {
+			n = len(keys)
+		}
+		idx := make([]int, len(keys))
+		for i := range idx {
+			idx[i] = i
+		}
+		r.Shuffle(len(idx), func(i, j int) { idx[i], idx[j] = idx[j], idx[i] })
+		ks := make([]K, n)
+		for i := range ks {
+			ks[i] = keys[idx[i]]
+		}
+		return ks
+	}
+	deliver := func(ks []K) {
+		c.Ops = append(c.Ops, Op{Op: "deliver", D: ents(ks)})
+		s.deliver(ents(ks))
+	}
+	rounds := r.Range(1, 3)
+	deliver(pickSome(2, 4))
+	for i := 0; i < rounds; i++ {
+		// release part of what is in flight (sometimes also other transfers), deliver an overlapping set
+		var rel []K
+		if len(s.live) > 0 {
+			rel = subsetOf(r, s.live[r.Intn(len(s.live))])
+		}
+		if len(rel) == 0 || r.Chance(1, 4) {
+			rel = append(rel, subsetOf(r, keys)...)
+		}
+		c.Ops = append(c.Ops, Op{Op: "release", B: rel})
+		s.release(rel)
+		next := subsetOf(r, rel)
+		if r.Chance(1, 2) {
+			next = append(next, pickSome(1, 2)...)
+		}
+		r.Shuffle(len(next), func(i, j int) { next[i], next[j] = next[j], next[i] })
+		deliver(next)
+		// some sessions end now, in any order
+		for len(s.live) > 0 && r.Chance(1, 2) {
+			b := s.popLive(r.Intn(len(s.live)))
+			ok := r.Chance(1, 2)
+			c.Ops = append(c.Ops, endOp(b, ok))
+			s.end(b, ok)
+		}
+		if r.Chance(1, 3) {
+			deliver(pickSome(1, 4))
+		}
+	}
+	for len(s.live) > 0 {
+		b := s.popLive(r.Intn(len(s.live)))
+		ok := r.Chance(1, 2)
+		c.Ops = append(c.Ops, endOp(b, ok))
+		s.end(b, ok)
+		if r.Chance(1, 4) {
+			deliver(pickSome(1, 4))
+		}
+	}
+	deliver(keys)
 	return c
 }
 
@@ -621,6 +848,11 @@ func gen(r *vgen.Rng, tier string) []Case {
 			out = append(out, genHist(r, dest, r.Range(2, 30)))
 		}
 	}
+	// 4. Bitcoin: overlapping sessions over multi-transfer deliveries
+	out = append(out, genOverlapGrid()...)
+	for i := 0; i < 2*nh; i++ {
+		out = append(out, genOverlap(r))
+	}
 	return out
 }
 
@@ -655,6 +887,8 @@ func coq(c Case, o Obs) string {
 			return "ExecOk " + vgen.ListOf(op.B, coqK)
 		case "fail":
 			return "ExecFail " + vgen.ListOf(op.B, coqK)
+		case "release":
+			return "Release " + vgen.ListOf(op.B, coqK)
 		}
 		return "Restart"
 	})
@@ -682,7 +916,7 @@ func main() {
 			}
 			return n >= 2
 		},
-		Rule: "per destination kind: one delivery with every assignment of executed / not executed / lookup error to 0..5 proposals (BTC: every assignment of the four recorded statuses to 0..4, every status x store fault for 1..2), a delivery repeating a transfer, and random histories of 2..30 ops (deliveries with faults, successful / failed session ends, restarts) over 2..6 transfers; distinct = distinct input JSON; non-trivial = at least two proposals delivered in the case",
+		Rule:      "per destination kind: one delivery with every assignment of executed / not executed / lookup error to 0..5 proposals (BTC: every assignment of the four recorded statuses to 0..4, every status x store fault for 1..2), a delivery repeating a transfer, random histories of 2..30 ops (deliveries with faults, successful / failed ends of live sessions, restarts, Bitcoin: retry requests releasing pending transfers) over 2..6 transfers, and for Bitcoin overlapping sessions: completely for a delivery of 2..4 transfers in one transaction, every non-empty released subset, the second session over it in the same or the reversed order, both end orders and all outcomes, plus random ones (one or two resources, 3..6 transfers, 1..3 release/deliver rounds, second deliveries mixing released and new transfers at any position, live sessions ending in any order); distinct = distinct input JSON; non-trivial = at least two proposals delivered in the case",
 		ShardSize: 300,
 	})
 }
